@@ -104,6 +104,27 @@ pub struct RunResult {
     pub hb_stats: (u64, u64, u64),
 }
 
+/// The remapping functions of the concurrent programs. Values must identify allocations: the
+/// crate compares an observed value with the current one by pointer (retain), the specification by
+/// value, so no two writes of a run may produce the same payload for a key. Inserted values are
+/// distinct small numbers (< 10^6); a computed value moves its argument into a higher band, so
+/// values grow strictly along a chain of computes and chains from different inserts stay apart
+/// (they differ modulo 10^6).
+pub fn cremap(f: u32, _k: u32, v: i64) -> Option<i64> {
+    match f {
+        0 => None,
+        1 => Some(v + 1_000_000),
+        2 => Some(v + 2_000_000),
+        _ => {
+            if v % 2 == 0 {
+                None
+            } else {
+                Some(v + 3_000_000)
+            }
+        }
+    }
+}
+
 fn now(s: &Sched) -> u64 {
     s.inner.lock().unwrap().step
 }
@@ -248,7 +269,7 @@ fn run_op<S: BuildHasher>(
                 if !v.alive() || !kk.alive() {
                     fails.lock().unwrap().push("C03: compute_if_present callback was shown a dead key/value".into());
                 }
-                remap(*f, kk.id, v.payload).map(Val::new)
+                cremap(*f, kk.id, v.payload).map(Val::new)
             };
             let r = if pin { mref.compute_if_present(&Key::probe(*k), fun) } else { map.compute_if_present(&Key::probe(*k), fun, &guard) };
             let ret = r.map(|v| v.payload);
@@ -608,7 +629,7 @@ fn apply(state: Option<i64>, op: &KOp) -> Option<Option<i64>> {
                 if *seen != Some(s) {
                     return None;
                 }
-                let nv = remap(*f, *k, s);
+                let nv = cremap(*f, *k, s);
                 (nv == *ret).then_some(nv)
             }
         },
@@ -671,7 +692,7 @@ fn kop_coq(op: &KOp) -> String {
         KOp::Insert(v, old) => format!("KInsert {} {}", v, oz(old)),
         KOp::TryInsert(v, cur) => format!("KTryInsert {} {}", v, oz(cur)),
         KOp::Remove(old) => format!("KRemove {}", oz(old)),
-        KOp::Compute(f, k, seen, ret) => format!("KCompute (remap_tbl {} {}) {} {}", f, k, oz(seen), oz(ret)),
+        KOp::Compute(f, k, seen, ret) => format!("KCompute (cremap_tbl {} {}) {} {}", f, k, oz(seen), oz(ret)),
         KOp::CondRemove(obs) => format!("KCondRemove {}", obs),
         KOp::ForceRemove | KOp::ClearKey => "KForceRemove".into(),
     }
@@ -690,6 +711,35 @@ pub fn quiescent_coq(r: &RunResult) -> (String, usize) {
         ),
         _ => (String::new(), 0),
     }
+}
+
+/// Coq text: one `Eval vm_compute in (log_ok ...)` per resize of the run (events grouped by the
+/// length of the table being replaced), for runs that ended regularly
+pub fn resize_logs_coq(r: &RunResult) -> (String, usize) {
+    if r.verdict != Verdict::Done {
+        return (String::new(), 0);
+    }
+    let mut by_n: BTreeMap<usize, Vec<String>> = BTreeMap::new();
+    for (tid, e) in &r.events {
+        match e {
+            Event::BinMigrated { n, i } => by_n.entry(*n).or_default().push(format!("EMigrated {}", i)),
+            Event::TablePublished { n } => by_n.entry(*n / 2).or_default().push("EPublished".to_string()),
+            Event::ResizeEnter { n, initiator } => by_n.entry(*n).or_default().push(format!("EEntered {} {}", tid, initiator)),
+            Event::ResizeLeave { n, finisher } => by_n.entry(*n).or_default().push(format!("ELeft {} {}", tid, finisher)),
+            _ => {}
+        }
+    }
+    let mut s = String::new();
+    let mut k = 0;
+    for (n, evs) in by_n {
+        if n == 0 || n > 4096 {
+            continue;
+        }
+        // the model's log is newest first; log_ok does not depend on the order
+        s.push_str(&format!("Eval vm_compute in (log_ok {}%nat [{}]).\n", n, evs.join("; ")));
+        k += 1;
+    }
+    (s, k)
 }
 
 /// Coq text: one `Eval vm_compute in (lin_b ...)` per key with at least two calls
@@ -772,9 +822,28 @@ fn per_key_calls(p: &Program, r: &RunResult) -> (BTreeMap<u32, Vec<KCall>>, Vec<
             }
             (COp::Clear, _) => {
                 for k in 0..p.universe {
-                    // clear acts on every key at some point within its interval; keys it does not
-                    // hold are unaffected, which ClearKey (remove if present) also models
-                    push(k, KCall { inv: c.inv, res: c.res, op: KOp::ClearKey, desc: d.clone() });
+                    // clear is not atomic and not part of C01: it empties the bins one after the
+                    // other and starts over on the new table when it meets a forwarding marker, so
+                    // it may remove a key more than once during its interval (an entry inserted
+                    // after its first pass over that bin can be removed by the second). It acts on
+                    // every key at least once. Removal is idempotent, so "at least once, at most m
+                    // times within the interval" is modelled by m mandatory removals with the
+                    // same interval, m = 1 + the number of writes of that key overlapping it
+                    // (at most 3).
+                    let overlapping = r
+                        .calls
+                        .iter()
+                        .filter(|o| {
+                            let key = match &o.op {
+                                COp::Insert(kk, _) | COp::TryInsert(kk, _) | COp::Compute(kk, _) => Some(*kk),
+                                _ => None,
+                            };
+                            key == Some(k) && o.res >= c.inv && o.inv <= c.res
+                        })
+                        .count();
+                    for _ in 0..(1 + overlapping).min(3) {
+                        push(k, KCall { inv: c.inv, res: c.res, op: KOp::ClearKey, desc: d.clone() });
+                    }
                 }
             }
             _ => {}
